@@ -120,6 +120,7 @@ def run(ctx):
         ('G-sim-priority-siblings', 60, 1000, dict(abandon='priority')),
         ('G-sim-priority-branches', 60, 1000, dict(branches='priority')),
         ('G-sim-priority-failready', 40, 800, dict(failready='priority')),
+        ('G-sim-twin-preempt', 60, 1200, dict(twin_preempt=True)),
         ('G-sim-ppool', 80, 1500, dict(algo='priority-pool')),
         ('G-sim-saturate-ppool', 60, 1000, dict(saturate='priority-pool')),
     ])
